@@ -286,7 +286,10 @@ def atom_use(draw, n, xbar, names, as_objective=False, allow_off=True, strict=Fa
             p, q = draw(st.sampled_from(PQ))
             a['p'], a['q'] = p, q
         elif mode == 'vector':
-            pq = [draw(st.sampled_from(PQ)) for _ in range(k)]
+            # mixed exponent arrays may contain exponent one (p == q: the entry is |u|)
+            pq = [draw(st.sampled_from(PQ + [(1, 1), (2, 2)])) for _ in range(k)]
+            if draw(st.booleans()):
+                pq[draw(st.integers(0, k - 1))] = draw(st.sampled_from([(1, 1), (2, 2), (3, 3)]))
             a['p'], a['q'] = [v[0] for v in pq], [v[1] for v in pq]
         else:
             # 2-D argument (rows x cols = k) with exponents per row (shape (rows,1)) or per column (shape (cols,))
@@ -296,11 +299,9 @@ def atom_use(draw, n, xbar, names, as_objective=False, allow_off=True, strict=Fa
             cols = k // rows
             a['shape2'] = [rows, cols]
             cnt = rows if mode == 'rows' else cols
-            pq = [draw(st.sampled_from(PQ)) for _ in range(cnt)]
+            pq = [draw(st.sampled_from(PQ + [(1, 1), (3, 3)])) for _ in range(cnt)]
             a['p'] = [v[0] for v in pq]
             a['q'] = [v[1] for v in pq] if draw(st.booleans()) else 1
-            if a['q'] == 1:
-                a['p'] = [max(v, 2) for v in a['p']]
             a['pshape'] = [rows, 1] if mode == 'rows' else [cols]
     if name == 'gmean':
         a['beta'] = [draw(st.integers(1, 3)) for _ in range(k)]
